@@ -949,6 +949,20 @@ def check_lambda_evaluates_every_time(repo, rep):
            'test on the value)', loc=yt.loc(call.node))
 
 
+def _callable_attr_class_is_fed_by_partial(repo, ci):
+    """functools.partial(Cls, ...) somewhere in the standard library: the
+    remaining constructor arguments arrive where the partial is called."""
+    for f in repo.all_functions():
+        if not f.module.name.startswith('yaql.standard_library'):
+            continue
+        for c in model.calls_in(f.node):
+            if model.norm(c.func) in ('functools.partial', 'partial') and \
+                    c.args and model.norm(c.args[0]).endswith(
+                        ci.node.name):
+                return True
+    return False
+
+
 def check_stored_lambda_once_per_success(repo, rep, uni):
     """R11j: an object that stores a per-group / per-element lambda
     (GroupAggregator.aggregator) applies it at most once on every path on
@@ -996,7 +1010,8 @@ def check_stored_lambda_once_per_success(repo, rep, uni):
                         for a in list(c.args) + [k.value
                                                  for k in c.keywords]):
                     lazy_fed = True
-        if not lazy_fed:
+        if not lazy_fed and not _callable_attr_class_is_fed_by_partial(
+                repo, ci):
             continue
         # applications per method, own-method calls counted through
         direct = {}
